@@ -428,6 +428,8 @@ fn draw(name: &str) -> String {
             }
         };
         e.drawn.push((name.to_string(), v.clone()));
+        // the same name must denote the same value for the rest of the run
+        e.inputs.insert(name.to_string(), v.clone());
         v
     })
 }
